@@ -83,6 +83,10 @@ CLAIMS = {
          "Shape clauses: all OutMessageMeta constructions take (consumer id, connection key) from one source object or one zipped receiver tuple; InMessageMeta only from the connection's own ids, which come from the socket worker's index and its slot-map insert; the swarm worker sends (meta, msg) to meta's own consumer id and the socket worker looks meta.connection_id up in its own map; no return of ConnectionRunner::run bypasses after_close, which groups records by the same routing function as the announces and carries the closing connection's identity; forwarding only after recording (Vacant insert or equal stored id), a different stored id is refused, stopped forgets; a pending scrape is registered only under a non-empty worker map (idiom 3) - the rule that exposed the empty-array defect, fix: bdcd121 - and the merged reply is sent exactly when the counter reaches zero.",
          "Not decided: delivery, back-pressure, close-frame vs reset timing.",
          "DESIGN.md section 2, C17"),
+ "C12": ("call-graph reachability from the network entry points + exhaustive enumeration of panic-capable MIR sites against a reviewed table; guard obligations by path analysis; origin of allocation sizes",
+         "An inventory, not a proof: 200 entry bodies (socket read paths, swarm handlers, all parse functions and serde visitors of the protocol crates), ~400 reachable workspace bodies, every Assert terminator and panic-capable call among them (110 groups / 204 sites on the pinned tree) must be covered by a reviewed line of aqv/tables/C12_sites.json with a multiplicity ceiling - a new unwrap, index, expect, unchecked subtraction or panic! reachable from network input is reported with its location; named sites carry machine-checked guards (numwant unwrap only for peers_wanted > 0, selection arithmetic and random_range only on the len > max edge with non-empty ranges, seeder decrements under the seeder flag, udp action read via get(8..12)); allocation sizes are constants, lengths, clamped limits or min/+ of those; protocol crates call no tracker crate. The deliberate panic! on a missing proxy header is a recorded known finding.",
+         "Not decided: panics/allocation inside dependencies, release-mode wrapping of the reviewed arithmetic. A newly added panic-capable call that is in fact safe must be reviewed into the table (that is the rule's purpose).",
+         "DESIGN.md section 2, C12"),
 }
 
 PENDING_REASON = "check under construction in this build phase (static rules designed in DESIGN.md section 2); not claimed until its rule set is validated both ways"
